@@ -13,7 +13,7 @@ GEN_DEPS = ["GenPipe.v"]
 TARGETS_CHECK = ["theories/Check/C20o.vo", "theories/Check/C20.vo"]
 TARGETS_PROP = ["theories/Properties/C20.vo"]
 RULE = ("for every N=2..20 and each of three families of pairwise non-commuting functions (affine 2x+i, "
-        "mixed x-i / 3x, append-index on lists) the staged copy of /repo/internal/pipe is run on random arguments "
+        "mixed x-i / 3x, append-index on lists, append-index on interface values with the nil interface as empty list) the staged copy of /repo/internal/pipe is run on random arguments "
         "(|x| < 2^20, lists of length 0..2) from VERIF_SEED; a case is distinct by (arity, family, input) and "
         "non-trivial when the result separates at least two orders of application (always true for these families)")
 TRUSTED = [
@@ -79,7 +79,7 @@ def signature(c):
 
 
 def describe(c):
-    fam = {0: "f_i(x)=2x+i", 1: "f_i(x)= x-i (i odd) | 3x (i even)", 2: "f_i(l)=append(l,i)"}[c["fam"]]
+    fam = {0: "f_i(x)=2x+i", 1: "f_i(x)= x-i (i odd) | 3x (i even)", 2: "f_i(l)=append(l,i)", 3: "f_i(x any)=append(list(x),i), nil interface = empty list; [-999] = panic"}[c["fam"]]
     return {"call": "Pipe%s(f_1..f_%d)(%s) with %s" % ("" if c["arity"] == 2 else c["arity"], c["arity"], c["input"], fam),
             "observed": c["observed"], "required": "f_N(...f_2(f_1(a)))"}
 
